@@ -47,22 +47,27 @@ pub fn k_roundtrip<T: Real>(case: &Case) -> Outcome {
         Some(p) => p,
         None => return Outcome::skip(format!("planner {:?} unavailable in this configuration", case.planner)),
     };
-    let planned = catch(|| match order {
-        0 => {
-            let f = p1.plan(n, Dir::Fwd);
-            let i = p1.plan(n, Dir::Inv);
-            (f, i)
-        }
-        1 => {
-            let i = p1.plan(n, Dir::Inv);
-            let f = p1.plan(n, Dir::Fwd);
-            (f, i)
-        }
-        _ => {
-            let mut p2 = mk().unwrap();
-            let f = p1.plan(n, Dir::Fwd);
-            let i = p2.plan(n, Dir::Inv);
-            (f, i)
+    // the two public spellings of a request alternate with the parity of n + order
+    let named = (n as i64 + order) % 2 == 1;
+    let planned = catch(|| {
+        let mut req = |p: &mut AnyPlanner<T>, d: Dir| if named { p.plan_named(n, d) } else { p.plan(n, d) };
+        match order {
+            0 => {
+                let f = req(&mut p1, Dir::Fwd);
+                let i = req(&mut p1, Dir::Inv);
+                (f, i)
+            }
+            1 => {
+                let i = req(&mut p1, Dir::Inv);
+                let f = req(&mut p1, Dir::Fwd);
+                (f, i)
+            }
+            _ => {
+                let mut p2 = mk().unwrap();
+                let f = req(&mut p1, Dir::Fwd);
+                let i = req(&mut p2, Dir::Inv);
+                (f, i)
+            }
         }
     });
     let (fwd, inv): (Arc<dyn Fft<T>>, Arc<dyn Fft<T>>) = match planned {
@@ -142,9 +147,12 @@ pub fn k_chunks<T: Real>(case: &Case) -> Outcome {
     }
     let input = make_input::<T>(&case.input, n, k);
     let b = bound(n, T::EPS);
-    let whole = match transform(&*fft, case.entry, &input) {
+    // p[2]: slack code of the scratch handed to the k-chunk call (0 = exactly the advertised length; see `extra_scratch`)
+    let zero_c = Complex { re: T::of_f64(0.0), im: T::of_f64(0.0) };
+    let extra = if case.entry == Entry::Process { 0 } else { extra_scratch(case.pget(2), adv_scratch(&*fft, case.entry), n, k) };
+    let whole = match transform_filled(&*fft, case.entry, &input, extra, zero_c, zero_c) {
         Ok(o) => o,
-        Err(p) => return Outcome::bad(format!("well-shaped {}-chunk call panicked: {} @ {}", k, p.msg, p.loc)),
+        Err(p) => return Outcome::bad(format!("well-shaped {}-chunk call (scratch = advertised + {}) panicked: {} @ {}", k, extra, p.msg, p.loc)),
     };
     // A: every chunk equals the same chunk passed alone (up to rounding: both are within B of the exact DFT)
     let mut worst = 0.0f64;
@@ -164,8 +172,8 @@ pub fn k_chunks<T: Real>(case: &Case) -> Outcome {
         let d = dist_scaled(&whole[i * n..(i + 1) * n], &alone, 1.0) / na;
         if !(d <= 2.5 * b) {
             return Outcome::bad(format!(
-                "chunk {} of a {}-chunk call differs from the same chunk transformed alone: relative distance {:.3e} > 2.5*B = {:.3e}",
-                i, k, d, 2.5 * b
+                "chunk {} of a {}-chunk call (scratch = advertised + {}) differs from the same chunk transformed alone: relative distance {:.3e} > 2.5*B = {:.3e}",
+                i, k, extra, d, 2.5 * b
             ));
         }
         worst = worst.max(d / (2.5 * b));
@@ -179,7 +187,7 @@ pub fn k_chunks<T: Real>(case: &Case) -> Outcome {
             other = make_input::<T>(&InputSpec::fam("uniform", mix(case.input.seed, 99)), n, k);
         }
         other[i0 * n..(i0 + 1) * n].copy_from_slice(&input[i0 * n..(i0 + 1) * n]);
-        let out2 = match transform(&*fft, case.entry, &other) {
+        let out2 = match transform_filled(&*fft, case.entry, &other, extra, zero_c, zero_c) {
             Ok(o) => o,
             Err(p) => return Outcome::bad(format!("well-shaped call panicked when other chunks hold {}: {} @ {}", FILL_NAMES[case.pget(1).clamp(0, 5) as usize], p.msg, p.loc)),
         };
@@ -209,6 +217,18 @@ pub fn k_chunks<T: Real>(case: &Case) -> Outcome {
 // kind "scratch" (C08)
 // p[0]: scratch slack (-1 = twice the advertised length), p[1]: scratch fill id, p[2]: output fill id
 
+/// extra scratch elements beyond the advertised length for a slack code: >= 0 literal; -1 twice the advertised length;
+/// -2 k*max(adv,n) in total (one scratch per chunk); -3 four chunks' worth more; -4 (k+3)*n + k*adv in total
+pub fn extra_scratch(code: i64, adv: usize, n: usize, k: usize) -> usize {
+    match code {
+        c if c >= 0 => c as usize,
+        -1 => adv,
+        -2 => (k * adv.max(n)).saturating_sub(adv),
+        -3 => 4 * n,
+        _ => ((k + 3) * n + k * adv).saturating_sub(adv),
+    }
+}
+
 pub fn k_scratch<T: Real>(case: &Case) -> Outcome {
     let fft = match obtain::<T>(case) {
         Ok(f) => f,
@@ -222,7 +242,7 @@ pub fn k_scratch<T: Real>(case: &Case) -> Outcome {
         return Outcome::skip("no explicit scratch");
     }
     let adv = adv_scratch(&*fft, case.entry);
-    let extra = if case.pget(0) < 0 { adv } else { case.pget(0) as usize };
+    let extra = extra_scratch(case.pget(0), adv, n, case.chunks.max(1));
     let input = make_input::<T>(&case.input, n, case.chunks.max(1));
     // baseline: exactly the advertised length, zero-filled scratch and output
     let base = match transform(&*fft, case.entry, &input) {
